@@ -141,9 +141,9 @@ func c11Component(rep *core.Report, maxN int) {
 		distinct[d1] = true
 		if d1 != d2 {
 			cls := "flags/time differ after save+load"
-			for _, n := range []string{"unsafe", "safe", "trusted"} {
+			for _, n := range []string{" trusted", " safe", ":unsafe"} {
 				if strings.Count(d1, n+"=true") != strings.Count(d2, n+"=true") {
-					cls = n + " flag differs after save+load"
+					cls = strings.Trim(n, " :") + " flag differs after save+load"
 				}
 			}
 			fail("flags-survive-restart", cls, fmt.Sprintf("before: %s\nafter:  %s", d1, d2))
